@@ -6,6 +6,7 @@ import Driver.Pitch
 import Driver.Synth
 import Driver.Audio
 import Driver.Seq
+import Driver.Settings
 
 def main (args : List String) : IO UInt32 := do
   let stdin ← IO.getStdin
@@ -17,6 +18,7 @@ def main (args : List String) : IO UInt32 := do
   | ["synth"] => Driver.loop stdin stdout Driver.Synth.step Opn.Synth.init; return 0
   | ["audio"] => Driver.loop stdin stdout Driver.Audio.step (); return 0
   | ["seq"] => Driver.loop stdin stdout Driver.Seq.step ({} : Driver.Seq.St); return 0
+  | ["settings"] => Driver.loop stdin stdout Driver.Settings.step' ({} : Opn.Settings.S); return 0
   | ["wopn"] => Driver.loop stdin stdout Driver.Wopn.step (); return 0
   | _ =>
     IO.eprintln "usage: opnmodel <component>   (ops on stdin, one observation line per op on stdout)"
